@@ -659,32 +659,155 @@ def zabs(e):
     return z3.If(e >= 0, e, -e)
 
 
+class FrozenModel:
+    """values of the uninterpreted constants of a sat answer obtained in a
+    forked child (z3 models cannot cross a process boundary)."""
+
+    def __init__(self, vals):
+        self.vals = vals     # name -> decimal / fraction string
+
+    def eval(self, e, model_completion=True):
+        subs = []
+        seen = set()
+
+        def walk(t):
+            if t.get_id() in seen:
+                return
+            seen.add(t.get_id())
+            if z3.is_const(t) and t.decl().kind() == z3.Z3_OP_UNINTERPRETED:
+                nm = t.decl().name()
+                if z3.is_real(t):
+                    subs.append((t, z3.RealVal(self.vals.get(nm, '0'))))
+                elif z3.is_bool(t):
+                    subs.append((t, z3.BoolVal(self.vals.get(nm, 'False') == 'True')))
+            else:
+                for c in t.children():
+                    walk(c)
+        walk(e)
+        return z3.simplify(z3.substitute(e, *subs)) if subs else z3.simplify(e)
+
+    def decls(self):
+        return []
+
+    def __repr__(self):
+        return 'FrozenModel(%s)' % (dict(list(self.vals.items())[:12]),)
+
+
+def _model_values(m):
+    out = {}
+    for d in m.decls():
+        if d.arity() != 0:
+            continue
+        v = m[d]
+        try:
+            if z3.is_rational_value(v):
+                out[d.name()] = '%d/%d' % (v.numerator_as_long(), v.denominator_as_long())
+            elif z3.is_algebraic_value(v):
+                a = v.approx(30)
+                out[d.name()] = '%d/%d' % (a.numerator_as_long(), a.denominator_as_long())
+            elif z3.is_bool(v):
+                out[d.name()] = str(z3.is_true(v))
+        except Exception:
+            pass
+    return out
+
+
+def _solve(assertions, timeout_ms):
+    s = z3.Solver()
+    s.set('timeout', int(timeout_ms))
+    s.add(*assertions)
+    t = time.time()
+    r = str(s.check())
+    dt = time.time() - t
+    return r, dt, (s.model() if r == 'sat' else None)
+
+
+def _solve_forked(assertions, timeout_ms):
+    """the same query in a forked child that is KILLED when it overruns: z3's
+    nlsat does not always honour its own timeout."""
+    import os
+    import pickle
+    import select
+    import signal
+    rfd, wfd = os.pipe()
+    t0 = time.time()
+    pid = os.fork()
+    if pid == 0:
+        try:
+            os.close(rfd)
+            r, dt, m = _solve(assertions, timeout_ms)
+            payload = (r, _model_values(m) if m is not None else None)
+            os.write(wfd, pickle.dumps(payload))
+        except BaseException:
+            pass
+        finally:
+            os._exit(0)
+    os.close(wfd)
+    data = b''
+    deadline = t0 + timeout_ms / 1000.0 + 3.0
+    verdict, vals = 'unknown', None
+    try:
+        while True:
+            left = deadline - time.time()
+            if left <= 0:
+                break
+            rl, _, _ = select.select([rfd], [], [], min(left, 0.5))
+            if rl:
+                chunk = os.read(rfd, 1 << 16)
+                if not chunk:
+                    break
+                data += chunk
+            else:
+                wp, _st = os.waitpid(pid, os.WNOHANG)
+                if wp != 0:
+                    pid = None
+                    # drain
+                    while True:
+                        chunk = os.read(rfd, 1 << 16)
+                        if not chunk:
+                            break
+                        data += chunk
+                    break
+        if data:
+            verdict, vals = pickle.loads(data)
+    except Exception:
+        verdict, vals = 'unknown', None
+    finally:
+        os.close(rfd)
+        if pid:
+            try:
+                os.kill(pid, signal.SIGKILL)
+            except OSError:
+                pass
+            try:
+                os.waitpid(pid, 0)
+            except OSError:
+                pass
+    return verdict, time.time() - t0, (FrozenModel(vals) if verdict == 'sat' and vals is not None else None)
+
+
+FAST_MS = 4000
+
+
+def solve(assertions, timeout_ms):
+    """(verdict, seconds, model): quick in-process attempt, then a forked,
+    hard-limited attempt for the remaining budget."""
+    r, dt, m = _solve(assertions, min(timeout_ms, FAST_MS))
+    if r != 'unknown' or timeout_ms <= FAST_MS:
+        return r, dt, m
+    r2, dt2, m2 = _solve_forked(assertions, timeout_ms - FAST_MS)
+    return r2, dt + dt2, m2
+
+
 def prove(ctx, claim, timeout_ms=20000, extra=()):
     """pc /\\ extra => claim ?  returns (verdict, seconds, model|None)
     verdict: 'unsat' = holds on this path for all values; 'sat' = model is a
     candidate counterexample; 'unknown' = inconclusive."""
-    s = z3.Solver()
-    s.set('timeout', timeout_ms)
-    s.add(*ctx.pc)
-    s.add(*extra)
-    s.add(z3.Not(claim))
-    t = time.time()
-    r = str(s.check())
-    dt = time.time() - t
-    m = None
-    if r == 'sat':
-        m = s.model()
-    return r, dt, m
+    return solve(list(ctx.pc) + list(extra) + [z3.Not(claim)], timeout_ms)
 
 
 def check_sat(ctx, extra=(), timeout_ms=20000):
-    s = z3.Solver()
-    s.set('timeout', timeout_ms)
-    s.add(*ctx.pc)
-    s.add(*extra)
-    t = time.time()
-    r = str(s.check())
-    return r, time.time() - t, (s.model() if r == 'sat' else None)
+    return solve(list(ctx.pc) + list(extra), timeout_ms)
 
 
 def mval(m, e, default=0.0):
